@@ -715,6 +715,20 @@ func TestVP_C18_Pool(t *testing.T) {
 			}
 			c.workers = append(c.workers, ops)
 		}
+		// Rare sub-class: one raw holder keeps the only connection for 600 ms, far longer than any
+		// wait budget, so every other call must give up on time instead of being rescued by a
+		// release that happens to come soon.
+		if rapid.IntRange(0, 15).Draw(t, "longHold") == 0 {
+			c.cfg.MaxConns = 1
+			if c.cfg.WaitMs == 0 {
+				c.cfg.WaitMs = 20
+			}
+			hold := vpC18Op{Kind: vpC18OpAcquire, HoldUs: 600000, CloseAfter: rapid.Bool().Draw(t, "longHoldClose")}
+			c.workers[0] = append([]vpC18Op{hold}, c.workers[0]...)
+			for w := 1; w < len(c.workers); w++ {
+				c.workers[w] = append([]vpC18Op{{Kind: vpC18OpSleep, SleepUs: 3000}}, c.workers[w]...)
+			}
+		}
 		if viol, detail := c.run(); viol != nil {
 			rep.set(detail)
 			t.Logf("%s", detail)
